@@ -6,6 +6,7 @@ that it links as a native executable.
 import Compress.Drv.XFlateReader
 import Compress.Drv.Meta
 import Compress.Drv.XFlateOpen
+import Compress.Drv.Brotli
 import Compress.Drv.XFlateWriter
 import Compress.Drv.Prefix
 import Compress.Drv.Flate
@@ -15,7 +16,7 @@ import Compress.Drv.Bzip2
 
 open Compress.Util Compress.Drv
 
-def processLine (line : String) : String :=
+def processLine (brotliDict : ByteArray) (line : String) : String :=
   let toks := (line.trimAscii.toString.splitOn " ").filter (· ≠ "")
   match toks with
   | [] => ""
@@ -27,6 +28,8 @@ def processLine (line : String) : String :=
       | "xr" => handleXr kv
       | "xc" => handleXc kv
       | "xa" => handleXa kv
+      | "brd" => handleBrd brotliDict kv
+      | "btr" => handleBtr kv
       | "xo" => handleXo kv
       | "xw" => handleXw kv
       | "fl" => handleFl kv
@@ -54,15 +57,24 @@ def processLine (line : String) : String :=
       | _ => "bad-kind"
     s!"{id} {out}"
 
-partial def loop (hin : IO.FS.Stream) (hout : IO.FS.Stream) : IO Unit := do
+partial def loop (brotliDict : ByteArray) (hin : IO.FS.Stream) (hout : IO.FS.Stream) : IO Unit := do
   let line ← hin.getLine
   if line.isEmpty then return ()
-  let r := processLine line
+  let r := processLine brotliDict line
   if r ≠ "" then hout.putStrLn r
-  loop hin hout
+  loop brotliDict hin hout
+
+/-- the Brotli static dictionary (RFC 7932 appendix A), from the file named by
+    `BROTLI_DICT` (dumped from /repo by the harness on every run); empty if unset. -/
+def loadBrotliDict : IO ByteArray := do
+  match ← IO.getEnv "BROTLI_DICT" with
+  | none => pure ByteArray.empty
+  | some path =>
+    try IO.FS.readBinFile path catch _ => pure ByteArray.empty
 
 def main : IO Unit := do
   let hin ← IO.getStdin
   let hout ← IO.getStdout
-  loop hin hout
+  let brotliDict ← loadBrotliDict
+  loop brotliDict hin hout
   hout.flush
